@@ -77,10 +77,10 @@ type ServerCfg struct {
 	// ... given LAST instead: "later RunOption might overwrite previous one" - the not-found / not-allowed handlers,
 	// CORS and file-server wrappers set up by the earlier options went to the router that is now replaced
 	OwnRouterLast bool `json:"ownrouter_last"`
-	CorsKind  int  `json:"corskind"`  // with cors: 0 WithCors(), 1 WithCorsHeaders, 2 WithCustomCors(nil, nil)
-	Files     bool `json:"files"`     // rest.WithFileServer("/static", a file system without files)
-	Extras    bool `json:"extras"`    // WithUnauthorizedCallback, WithUnsignedCallback, WithTLSConfig, Verbose
-	Scribble  bool `json:"scribble"`  // the caller overwrites the slice Server.Routes() returned, before Start
+	CorsKind      int  `json:"corskind"` // with cors: 0 WithCors(), 1 WithCorsHeaders, 2 WithCustomCors(nil, nil)
+	Files         bool `json:"files"`    // rest.WithFileServer("/static", a file system without files)
+	Extras        bool `json:"extras"`   // WithUnauthorizedCallback, WithUnsignedCallback, WithTLSConfig, Verbose
+	Scribble      bool `json:"scribble"` // the caller overwrites the slice Server.Routes() returned, before Start
 }
 
 // recRouter is the user's own httpx.Router (rest.WithRouter): router.NewRouter() behind a wrapper that
@@ -117,14 +117,15 @@ type Event struct {
 }
 
 type Res struct {
-	K      string      `json:"k"` // h | na | nf | nac | nfc | cors204 | badreq | panic | other
-	H      int         `json:"h"`
-	Vars   [][2]string `json:"vars"`
-	Allow  []string    `json:"allow"`
-	Status int         `json:"status"`
-	Path   string      `json:"path"` // r.URL.Path as the server sees it
-	Clean  string      `json:"clean"`
-	MWs    []int       `json:"mws"` // middleware tags seen by the handler, outermost first
+	K       string      `json:"k"` // h | na | nf | nac | nfc | cors204 | badreq | panic | other
+	H       int         `json:"h"`
+	Vars    [][2]string `json:"vars"`
+	Allow   []string    `json:"allow"`
+	Status  int         `json:"status"`
+	Path    string      `json:"path"`    // r.URL.Path as the server sees it
+	RawPath string      `json:"rawpath"` // r.URL.RawPath (net/url keeps it when the target is not in the default encoding)
+	Clean   string      `json:"clean"`
+	MWs     []int       `json:"mws"` // middleware tags seen by the handler, outermost first
 	// every further read of the path variables of THIS request: by the handler after its gate opened
 	// (held past the route timeout / concurrent batch), and after all later requests of the case were
 	// served: the map the handler kept, pathvar.Vars(r) again, httpx.ParsePath(r, ..)
@@ -738,6 +739,7 @@ func runCase(c Case, token string) (out Out) {
 			req.Header.Set("Origin", "http://c09.example")
 		}
 		f.res.Path = req.URL.Path
+		f.res.RawPath = req.URL.RawPath
 		f.res.Clean = path.Clean(req.URL.Path)
 		f.ctl = &reqCtl{gate: gate, entered: make(chan struct{}), done: make(chan struct{})}
 		for _, tok := range strings.Split(flagOf(orig), "+") {
